@@ -266,3 +266,20 @@ PROPS["C18"] = {
     ),
     "note": "Index/value interchangeability, confirmation pattern semantics and the exact error texts are value-level and not decided.",
 }
+
+SOURCE_COMMITS += ["9552069", "fb49ac9"]  # C19 fixes: BaseException exit stops the spinner; frame under a lock
+
+PROPS["C19"] = {
+    "claimed": True,
+    "technique": "static analysis: acquire/release pairing on every exit of the generator context manager (incl. BaseException thrown at the yield), lockset analysis of the two-write frame over thread-side and caller-side call paths, guard ordering in advance()",
+    "text": (
+        "Decides the schedule-independent structure: thread entry points are found from Thread(target=...); (R1) the yield of the "
+        "automatic mode is inside a try whose finally / catch-all handler sets the stop event and joins the thread, and the normal "
+        "exit passes a call that does so - exits by SystemExit / GeneratorExit included, which no test schedule exercises; (R2) every "
+        "function on the spinner side that writes a frame with more than one write is entered, on every call path from either thread, "
+        "inside 'with self.<lock>' where the lock is created in __init__ (lockset); (R3) in manual mode the redraw is dominated by "
+        "the 'interval elapsed' edge and re-arms the next update time."
+    ),
+    "note": "Enumeration of interleavings and 'the end message is the last frame' are schedule/value properties and not decided. "
+            "Atomic single-attribute stores of CPython are assumed benign; only multi-write frames need the lock.",
+}
